@@ -175,6 +175,11 @@ def _build_items(c, case):
                         alts = [int(Fraction(v)), float(Fraction(v)), Decimal(int(Fraction(v)))]
                     elif float(Fraction(v)) == Fraction(v):
                         alts = [float(Fraction(v)), Decimal(float(Fraction(v))), float(Fraction(v))]
+                    if isinstance(v, Decimal) or (it["u"] // 3) % 2:
+                        # the same number as a Decimal written with other exponents (2.5, 2.50, 25E-1)
+                        d0 = v if isinstance(v, Decimal) else Decimal(int(Fraction(v))) if Fraction(v).denominator == 1 else Decimal(float(Fraction(v)))
+                        if Fraction(d0) == Fraction(v) and d0.is_finite():
+                            alts = alts + [d0.normalize(), d0 * Decimal("1.00"), d0.normalize() * Decimal("1.0000")]
                     new = m.Quantity(alts[(it["u"]) % len(alts)], src.unit)
                 except Exception:
                     new = src
@@ -299,6 +304,10 @@ def _run_q(case, out):
             out.classes.append("q:pair-tie" if tie else "q:pair-ordered")
             if tie and res.get("ab==") is True:
                 out.classes.append("q:observed-equal")
+            if not raised and tie:
+                if res["ab=="] is True and (res["a<b"] is True or res["a>b"] is True):
+                    out.fail("C12:tie:eq-and-ordered", f"{a!r} vs {b!r}: == is True and so is {'<' if res['a<b'] else '>'}")
+                # (a<=b against b>=a is not demanded of ties: the two convert in opposite directions)
             if raised or tie:
                 continue
             lt = si[i] < si[j]
